@@ -525,7 +525,7 @@ func runC08(t fataler, c c08Case) (string, c08Result) {
 func TestC08(t *testing.T) {
 	rec := evid.For("C08")
 	rec.Rule = "rapid-generated sequences of 1-3 messages from a foreign sender with the read limit drawn from {default(never set), -1, 0, 1, 2, 125, 126, 4095, 4096, 32768, 65536, 1 MiB, 2^62, 2^63-2, 2^63-1} and optionally changed between messages; in a quarter of the cases the reading goroutine has a message of its own open (Writer, one Write, not closed yet); sizes {L-1, L, L+1, L+2, 2L, 10L, 0, 1} (unlimited: up to 1 MiB); zero/pattern/random/text contents; any fragmentation; uncompressed or compressed by any foreign deflater; optionally a final frame that only DECLARES 2^32..2^63-1 bytes and then trickles 0..40000 bytes; APIs Reader (fixed buffer), Conn.Read, wsjson.Read, NetConn (limit disabled); 9 role/compression settings; transport chunking. Memory: runtime TotalAlloc delta across the receive. Non-trivial: size within +-1 of the limit, or a compressed message over the limit, or a declared length >= 2^32. distinct = hash(setting, api, per-message (limit class, size relation, compression, fragments), huge)."
-	rapid.Check(t, func(rt *rapid.T) {
+	checkProp(t, func(rt *rapid.T) {
 		c := genC08(rt)
 		var msg string
 		var res c08Result
